@@ -983,3 +983,9 @@ for _p in ("C03", "C12"):
     PROPS[_p]["kani_units"] = list(PROPS[_p]["kani_units"]) + ["U61"]
     PROPS[_p]["claim"] = PROPS[_p]["claim"] + " Log::clean_logs (Kani, bounded: two or three enacted files) empties enacted log files oldest first and never more than asked for, so wherever reclamation stops the files still on disk are a suffix of the log -- replay numbers records consecutively and discards everything behind a hole; files not reclaimed stay queued, none is deleted while the pool has room."
 PROPS["C12"]["does_not_cover"] = [x for x in PROPS["C12"]["does_not_cover"] if "Log::clean_logs" not in x]
+
+# ---------------------------------------------------------------- U50 extension: no log file is touched before the options were checked against the metadata
+UNIT_META["column_admin"]["functions"] = UNIT_META["column_admin"]["functions"] + ["db::DbInner::open (fragment: from taking the directory lock to the opening of the columns)"]
+UNIT_META["column_admin"]["assumes"] = UNIT_META["column_admin"]["assumes"] + ["evidence encoding: the uninterpreted relation `agrees(options, metadata)` is established only by an Ok of Options::load_and_validate_metadata (U35) and is required by the contract of Log::open (which deletes empty / truncated log files); flock through a function-pointer map_err is a contract (listed rewrite)"]
+PROPS["C17"]["claim"] = PROPS["C17"]["claim"] + " Order of DbInner::open (Verus, fragment): Log::open -- which deletes log files it finds empty or shorter than a record header -- runs only after Options::load_and_validate_metadata accepted the requested options, so an open that is refused for disagreeing options has not touched a log file."
+PROPS["C17"]["does_not_cover"] = [x.replace("files touched by DbInner::open before validation (directory, lock file)", "the directory and the lock file, which DbInner::open creates before validation") for x in PROPS["C17"]["does_not_cover"]]
